@@ -88,9 +88,28 @@ def judge_placements(ctx, st, case, pat, rep, S, P, R, obs, atol, label=""):
     ext = obs["extends"]
     w = {"case": {k: case.get(k) for k in ("cell", "pattern", "repl", "atol", "replace_all")}, "cell": np.round(cell, 5).tolist(), "found": found, "selected": sel,
          "search_positions": np.round(pat["positions"], 5).tolist(), "replacement_positions": np.round(rep["positions"], 5).tolist(), "replacement_elements": rep["elements"]}
-    if len(ext) != len(sel):
-        ctx.fail("%s%d insertions observed for %d replaced matches" % (label, len(ext), len(sel)), witness=w)
+    # where the inserted atoms are is read off the returned structure (they carry the replacement atoms' ids); each replaced match
+    # is given the atoms nearest to where its rotation puts them - the statement asks that such atoms exist, not in which order
+    # the matches were served or through which calls the atoms went in
+    sel_obs, ext_obs = sel, ext
+    sel, ext, why = _insertions_from_result(obs, R, found, sel, new_idx, shared, pat, rep, cell)
+    if ext is None:
+        ctx.fail("%s%s" % (label, why), witness=w)
         return None
+    if sel_obs is None or obs.get("selection_inferred"):
+        st.count("placements_judged_without_seeing_the_draw")
+    # the insertion calls, where they were seen one per replaced match: the atoms identified with structure atoms must be the
+    # common atoms of some replaced match, each match once (in whatever order)
+    if ext_obs and len(ext_obs) == len(sel) and not case.get("replace_all"):
+        want = sorted(sorted((int(ri), int(found[k][sj])) for ri, sj in shared.items()) for k in sel)
+        got = sorted(sorted((int(a), int(b)) for a, b in e["index_map"].items()) for e in ext_obs)
+        if got != want:
+            ctx.fail("%sthe replacement atoms identified with structure atoms in the insertion calls are %s, the common atoms of the replaced matches are %s" % (label, got[:3], want[:3]), witness=w)
+        for e in ext_obs:
+            appended = [i for i in range(e["n_other"]) if i not in e["index_map"]]
+            if sorted(appended) != sorted(new_idx):
+                ctx.fail("%sreplacement atoms %s were inserted, the replacement-only atoms are %s" % (label, appended, new_idx), witness=w)
+        st.count("insertion_calls_checked_against_the_common_atoms")
     b0 = bound(atol, pat["positions"], rep["positions"])
     ppos = np.asarray(pat["positions"], float)
     rpos = np.asarray(rep["positions"], float).reshape(-1, 3)
@@ -100,14 +119,6 @@ def judge_placements(ctx, st, case, pat, rep, S, P, R, obs, atol, label=""):
         m = found[k]
         x_match = np.asarray(obs["found_positions"][k], float)
         q = obs["quats"][k]
-        # which atoms of `other` were appended: those not in the identity map (observed)
-        appended = [i for i in range(e["n_other"]) if i not in e["index_map"]]
-        if sorted(appended) != sorted(new_idx):
-            ctx.fail("%sreplacement atoms %s were inserted for match %s, the replacement-only atoms are %s" % (label, appended, m, new_idx), witness=w)
-            continue
-        for ri, sj in e["index_map"].items():
-            if shared.get(ri) is None or m[shared[ri]] != sj:
-                ctx.fail("%sreplacement atom %d was identified with structure atom %d, but it corresponds to matched atom %s" % (label, ri, sj, m[shared[ri]] if ri in shared else None), witness=w)
         ins = np.asarray(e["other_positions"], float)[new_idx] if new_idx else np.zeros((0, 3))
         if len(ins):
             fr = G.frac(cell, ins)
@@ -145,6 +156,48 @@ def judge_placements(ctx, st, case, pat, rep, S, P, R, obs, atol, label=""):
             ctx.fail("%smatch %s: matched + inserted atoms are not a proper rigid image of search + replacement coordinates modulo the lattice: residual %.4g > bound %.4g (atol %.3g); worst atom %d of %d" %
                      (label, m, res, b, atol, int(np.argmax(r_each)), len(A)), witness=dict(w, match=m, inserted=np.round(ins, 5).tolist(), residuals=np.round(r_each, 5).tolist()))
     return wrapped
+
+
+def _insertions_from_result(obs, R, found, sel, new_idx, shared, pat, rep, cell):
+    """-> (selected matches, one record per selected match shaped like an observed Atoms.extend call, reason if impossible)"""
+    out = obs["result"]
+    if out is None or found is None:
+        return None, None, "no result to read the insertions from"
+    ppos = np.asarray(pat["positions"], float)
+    rpos = np.asarray(rep["positions"], float).reshape(-1, 3)
+    rid = [float(c) for c in R.charges]
+    oc = [float(c) for c in out.charges]
+    opos = np.asarray(out.positions, float)
+    cand = list(range(len(found))) if sel is None else list(sel)
+    if not new_idx:
+        if sel is None:
+            return None, None, "which matches were replaced cannot be told: nothing is removed and nothing is inserted per match"
+        return cand, [{"n_other": len(rid), "index_map": {ri: found[k][sj] for ri, sj in shared.items()}, "other_positions": rpos.copy()} for k in cand], ""
+    taken = {}
+    for ri in new_idx:
+        have = [i for i, c in enumerate(oc) if c == rid[ri]]
+        if sel is not None and len(have) != len(cand):
+            return None, None, "%d atoms were inserted for replacement atom %d, %d matches were replaced" % (len(have), ri, len(cand))
+        if not have:
+            continue
+        pred = np.array([obs["quats"][k].apply(rpos[ri] - ppos[0]) + np.asarray(obs["found_positions"][k], float)[0] for k in cand])
+        cost = np.array([[float(G.equal_mod_lattice(cell, pred[a][None, :], opos[i][None, :])[0]) for i in have] for a in range(len(cand))])
+        from scipy.optimize import linear_sum_assignment
+        rows, cols = linear_sum_assignment(cost)
+        for a, b in zip(rows, cols):
+            taken.setdefault(cand[a], {})[ri] = opos[have[b]]
+    chosen = [k for k in cand if len(taken.get(k, {})) == len(new_idx)]
+    if sel is not None and len(chosen) != len(cand):
+        return None, None, "not every replaced match received all of its new atoms"
+    if sel is None and any(0 < len(taken.get(k, {})) < len(new_idx) for k in cand):
+        return None, None, "some match received only part of the replacement's new atoms"
+    recs = []
+    for k in chosen:
+        op = rpos.copy()
+        for ri in new_idx:
+            op[ri] = taken[k][ri]
+        recs.append({"n_other": len(rid), "index_map": {ri: found[k][sj] for ri, sj in shared.items()}, "other_positions": op})
+    return chosen, recs, ""
 
 
 def result_multiset(out, n_in):
@@ -257,7 +310,9 @@ def run_case(case, ctx):
             R2.positions = rpos.dot(Rm.T) + t
             events.SCHEDULE["sample"] = case.get("sample", "real")
             obs2 = replcase.observe_replace(S, P2, R2, case["s"], atol=atol, replace_all=case["replace_all"], **kw)
-            if obs2["exception"] is None and obs2["result"] is not None:
+            if f < 1.0 and (obs2.get("selected") is None or set(obs2["selected"]) != set(obs["selected"])):
+                st.count("joint_motion_not_judged_other_matches_drawn")
+            elif obs2["exception"] is None and obs2["result"] is not None:
                 ok, why = same_multiset(cell, result_multiset(out, len(S)), result_multiset(obs2["result"], len(S)), 2 * bound(atol, ppos, rpos))
                 if not ok:
                     ctx.fail("moving search and replacement pattern together by a rigid motion changes the result: %s" % why,
@@ -316,7 +371,7 @@ def requirements(stats, tier):
         need.append("not all cell / pattern classes observed")
     if stats.nseen("faces_crossed") < 4:
         need.append("copies straddling 0..3 faces not all observed")
-    if stats.get("partial_replacements_selected_out_of_found_order") < (10 if tier == "quick" else 400):
+    if stats.get("event.sample") and stats.get("partial_replacements_selected_out_of_found_order") < (10 if tier == "quick" else 400):
         need.append("partial replacements whose selection order differs from the found order: %d" % stats.get("partial_replacements_selected_out_of_found_order"))
     if stats.get("second_replacements_judged") < (60 if tier == "quick" else 8000) or stats.nseen("history") < 3:
         need.append("second replacements on a returned structure whose cell was changed: %d judged, histories %s" %
